@@ -102,7 +102,7 @@ class Float(BuiltinType):
     accepted_types = [float, _Decimal, str]
 
     def xmlvalue(self, value):
-        return str(value).upper()
+        return _float_xmlvalue(value)
 
     @treat_whitespace("collapse")
     def pythonvalue(self, value):
@@ -115,7 +115,7 @@ class Double(BuiltinType):
 
     @check_no_collection
     def xmlvalue(self, value):
-        return str(value)
+        return _float_xmlvalue(value)
 
     @treat_whitespace("collapse")
     def pythonvalue(self, value):
@@ -547,6 +547,16 @@ class PositiveInteger(NonNegativeInteger):
 
 ##
 # Other
+def _float_xmlvalue(value):
+    """Return the xsd:float / xsd:double lexical form (INF, -INF, NaN)"""
+    if isinstance(value, float):
+        if math.isnan(value):
+            return "NaN"
+        if math.isinf(value):
+            return "INF" if value > 0 else "-INF"
+    return str(value).upper()
+
+
 def _parse_timezone(val):
     """Return a pytz.tzinfo object"""
     if not val:
